@@ -91,6 +91,10 @@ type session struct {
 	// registration progress
 	fmu      sync.Mutex
 	finished map[string]bool
+	// what each runtime caller is in the middle of (watchdog report)
+	phase sync.Map
+	// the last (released) sync block of each caller
+	prevBlock sync.Map
 }
 
 func (s *session) rnd(n int) int {
@@ -358,10 +362,20 @@ func (s *session) request(r *rig.Rig, c string, n int) {
 	s.ev("call", "c", c, "req", id, "event", ev, "ctr", ctr)
 	t0 := time.Now()
 	if ev == "CreateContainer" && !s.o.NoBlocks {
+		s.phase.Store(c, "BlockPluginSync")
 		block = r.Ad.BlockPluginSync()
 		s.ev("block.acquired", "c", c, "req", id)
 		s.perturb()
+		// Unblock is documented to be idempotent: releasing an already released block again - while this
+		// caller (and possibly others) hold newer blocks - must change nothing
+		if old, ok := s.prevBlock.Load(c); ok && s.rnd(2) == 0 {
+			s.ev("block.unblock.again", "c", c, "req", id)
+			old.(*adaptation.PluginSyncBlock).Unblock()
+			s.perturb()
+		}
 	}
+	s.phase.Store(c, ev)
+	defer s.phase.Delete(c)
 	switch ev {
 	case "CreateContainer":
 		var rpl *api.CreateContainerResponse
@@ -420,6 +434,7 @@ func (s *session) request(r *rig.Rig, c string, n int) {
 		if block != nil {
 			s.ev("block.releasing", "c", c, "req", id)
 			block.Unblock()
+			s.prevBlock.Store(c, block)
 		}
 	}
 }
@@ -445,6 +460,8 @@ func (s *session) installSync(r *rig.Rig) {
 func (s *session) oneRun(w *rec.Writer) error {
 	s.log = &rec.Buf{}
 	s.store = nil
+	s.phase = sync.Map{}
+	s.prevBlock = sync.Map{}
 	s.finished = map[string]bool{}
 	s.conf = sync.Map{}
 	s.cfgUpd = sync.Map{}
@@ -454,7 +471,14 @@ func (s *session) oneRun(w *rec.Writer) error {
 	if err != nil {
 		return err
 	}
-	defer r.Close()
+	wedged := false
+	defer func() {
+		if wedged {
+			go r.Close() // may never return
+		} else {
+			r.Close()
+		}
+	}()
 	s.installSync(r)
 	updSeen := map[string]int{}
 	var umu sync.Mutex
@@ -582,7 +606,29 @@ func (s *session) oneRun(w *rec.Writer) error {
 			}
 		}()
 	}
-	wg.Wait()
+	// watchdog: nothing in a run may block for ever (a wedged lock is reported, not waited for)
+	allDone := make(chan struct{})
+	go func() { wg.Wait(); close(allDone) }()
+	select {
+	case <-allDone:
+	case <-time.After(60 * time.Second):
+		hung := []string{}
+		s.phase.Range(func(k, v any) bool {
+			hung = append(hung, fmt.Sprintf("%v:%v", k, v))
+			return true
+		})
+		sort.Strings(hung)
+		if len(hung) == 0 {
+			hung = append(hung, "plugin:Start/Stop/UpdateContainers")
+		}
+		s.ev("End", "stuck", []string{}, "hung", hung)
+		vhook.Set(nil)
+		if err := w.WriteScenario(s.log.Events()); err != nil {
+			return err
+		}
+		wedged = true
+		return errWedged
+	}
 	// all sync blocks are released: pending registrations must complete
 	deadline := time.Now().Add(5 * time.Second)
 	stuck := []string{}
@@ -608,10 +654,12 @@ func (s *session) oneRun(w *rec.Writer) error {
 		counts[k] = v
 	}
 	umu.Unlock()
-	s.ev("End", "stuck", append([]string{}, stuck...))
+	s.ev("End", "stuck", append([]string{}, stuck...), "hung", []string{})
 	vhook.Set(nil)
 	return w.WriteScenario(s.log.Events())
 }
+
+var errWedged = errors.New("run wedged")
 
 // Run records o.Runs concurrent executions.
 func Run(o Options) (int, error) {
@@ -624,6 +672,9 @@ func Run(o Options) (int, error) {
 	for i := 1; i <= o.Runs; i++ {
 		s.run = i
 		if err := s.oneRun(w); err != nil {
+			if err == errWedged { // the process is wedged: what was recorded is validated, no further runs
+				break
+			}
 			return 0, err
 		}
 	}
